@@ -29,7 +29,7 @@ CONFIG = dict(
         "any exception while building or encoding is a refusal and fine",
         "floats are compared by repr, everything else by type and ==",
     ],
-    min_nontrivial={"quick": 800, "thorough": 8000},
+    min_nontrivial={"quick": 800, "thorough": 4000},
     nshards={"quick": 8, "thorough": 16},
     timeout={"quick": 600, "thorough": 3600},
     required_counters=("values_delivered_or_refused", "opcode_encodings_checked"),
@@ -75,7 +75,7 @@ def values(ctx):
               (1, 2), {1: 2}, {b"k": 1}]
     out += nested
     rng = asm.rng_for(ctx.seed, "c15v")
-    n = {"quick": 60, "thorough": 1500}[ctx.tier]
+    n = {"quick": 60, "thorough": 3000}[ctx.tier]
     g = gen.ValueGen(rng, plain_only=True, max_depth=3)
     for _ in range(n):
         v = g.scalar() if rng.random() < 0.6 else _jsonish(g, rng, 0)
